@@ -96,6 +96,7 @@ Proof.
   rewrite (a_read_var_i32 k st _ (Z.of_N (nlen vs)) (b1 ++ s))
     by (apply var_i32_roundtrip_list; change (2 ^ 31)%Z with 2147483648%Z; lia).
   assert ((Z.of_N (nlen vs) =? -1)%Z = false) as -> by lia.
+  assert ((Z.of_N (nlen vs) <? 0)%Z = false) as -> by lia.
   rewrite as_usize_of_N by (change (2 ^ 64) with 18446744073709551616; lia).
   apply (rt_items e d w nv RT); assumption.
 Qed.
